@@ -259,7 +259,13 @@ class Interp:
             return len(v.items) > 0
         if isinstance(v, DictV):
             return len(v.pairs) > 0
-        if isinstance(v, (Obj, ClassV, FuncV, EnumV, Extern, ModuleV, ExcV, LambdaV)):
+        if isinstance(v, Obj):
+            for dunder in ("__bool__", "__len__"):
+                m = v.cls.find_method(dunder)
+                if m is not None:
+                    return self.truth(self.call_func(m, [], {}, v, None, None), label or f"{v.cls.name}.{dunder}()")
+            return True
+        if isinstance(v, (ClassV, FuncV, EnumV, Extern, ModuleV, ExcV, LambdaV)):
             return True
         if isinstance(v, Unknown):
             if "truthy" in v.meta:
@@ -603,7 +609,7 @@ class Interp:
             ca = v.cls.find_attr(name)
             if ca is not None:
                 c, expr = ca
-                return self.eval(expr, Frame(c.module, None, {}))
+                return self.class_attr(c, name, expr)
             if name == "__class__":
                 return ClassV(v.cls)
             key = f"{v.cls.name}.__getattr__"
@@ -624,7 +630,7 @@ class Interp:
             ca = c.find_attr(name)
             if ca is not None:
                 k, expr = ca
-                return self.eval(expr, Frame(k.module, None, {}))
+                return self.class_attr(k, name, expr)
             if name == "__name__":
                 return Str.lit(c.name)
             raise self.unsupported(f"class attribute {c.name}.{name}", node, fr)
@@ -662,6 +668,13 @@ class Interp:
             return Unknown(f"{v.type_name}.{name}")
         return self.bi.method(v, name, node, fr)
 
+    def class_attr(self, c: ClassInfo, name: str, expr: ast.expr) -> Value:
+        """class-level attributes are evaluated once per run: one object shared by all instances"""
+        key = ("$classattr", c.name + "." + name)
+        if key not in self.run.const_cache:
+            self.run.const_cache[key] = self.eval(expr, Frame(c.module, None, {}))
+        return self.run.const_cache[key]
+
     def set_attr(self, target: Value, name: str, value: Value, node: Optional[ast.AST], fr: Optional[Frame]) -> None:
         if isinstance(target, Obj):
             s = target.cls.find_setter(name)
@@ -671,6 +684,11 @@ class Interp:
             self.run.event("setattr", obj=target, cls=target.cls.name, attr=name, value=value, node=node,
                            func=(fr.func.qualname if fr and fr.func else ""))
             target.fields[name] = value
+            return
+        if isinstance(target, ClassV):
+            self.run.event("setattr_class", cls=target.cls.name, attr=name, value=value, node=node,
+                           func=(fr.func.qualname if fr and fr.func else ""))
+            self.run.const_cache[("$classattr", target.cls.name + "." + name)] = value
             return
         if isinstance(target, (Unknown, ClassV)):
             self.run.event("setattr_unknown", target=target, attr=name, value=value, node=node,
@@ -982,7 +1000,7 @@ class Interp:
         if isinstance(e.op, ast.Not):
             if isinstance(v, SymBool):
                 return SymBool(v.tag, not v.neg, v.meta)
-            if isinstance(v, Unknown):
+            if isinstance(v, Unknown) and "truthy" not in v.meta:
                 return SymBool(v.tag, True, {"of": v})
             return FALSE if self.truth(v, self.up(e.operand)) else TRUE
         if isinstance(e.op, ast.USub) and isinstance(v, IntV):
